@@ -212,14 +212,14 @@ func inlineCall(call *ssa.Call, result int, env provEnv) *sx {
 	e2 := env
 	e2.chain = append(append([]*ssa.Call{}, env.chain...), call)
 	if len(rets) == 1 {
-		e := symOf(rets[0].Results[result], e2)
+		e := symOf(returnedValue(rets[0], result), e2)
 		cp := *e
 		cp.inl = fname(cal)
 		return &cp
 	}
 	e := &sx{op: "phi", v: call, inl: fname(cal)}
 	for _, r := range rets {
-		e.args = append(e.args, symOf(r.Results[result], e2))
+		e.args = append(e.args, symOf(returnedValue(r, result), e2))
 	}
 	return e
 }
